@@ -173,10 +173,14 @@ where
 
                             Ok(Some((directive, (reader, line))))
                         }
-                        Kind::Comment => Ok(Some((
-                            LineBuf::Comment(line.as_ref().into()),
-                            (reader, line),
-                        ))),
+                        Kind::Comment => {
+                            let comment = line
+                                .as_comment()
+                                .map(|s| LineBuf::Comment(s.into()))
+                                .unwrap(); // SAFETY: `line` is a comment.
+
+                            Ok(Some((comment, (reader, line))))
+                        }
                         Kind::Record => {
                             let record = line
                                 .as_record()
